@@ -559,6 +559,7 @@ func runC05(c *Ctx) {
 			}
 		}
 	}
+	closeDeferred()
 	c.WriteCoqSharded("cases_C05", "From Verif Require Import Base Ocsp RunOcsp.\nOpen Scope N_scope.\n", "ocase", items, "ocsp_mismatches", 120)
 	c.Rep.Cases = len(cases) + len(muts)
 	c.Rep.Rule = "one responder, ocsp_aia_strict on, cache 1h: signer {issuer, delegate with/without OCSPSigning EKU, the client's own certificate, stranger with/without embedded certificate, sibling CA; the non-issuer signers also without embedded certificate under the real issuer's CertID} x serial {this, other} x status {good, revoked, unknown}; the four OCSP error statuses; every 3rd (thorough: every) single-byte mutation of an authentic good and an authentic revoked response; second handshake with the responder down shows what was cached"
@@ -586,7 +587,7 @@ func twoIssuerCase(p *ocspPKI, shape string) *c14Case {
 	org.ServeOCSP("/sib", p.Sibling, func(int) OCSPBehaviour { return OCSPRevoked }, nil)
 	v, err := NewValidator(VCfg{Mode: "ocsp_only", AIAStrict: true, CacheDuration: "1h", NoCRLConfig: true})
 	mustNoErr(err)
-	defer v.Close()
+	deferClose(v) // Cleanup flushes the process-wide cache table: closed when no other case is running
 	cs.Events = []string{"handshake alice/CA (responder: good)", "handshake alice/Sibling (responder: revoked)"}
 	cs.Obs = []string{classify(v.Verify(l1.Cert, p.CA.Cert, p.Root.Cert)), classify(v.Verify(l2.Cert, p.Sibling.Cert, p.Root.Cert))}
 	cs.Want = []string{"accept", "revoked"}
@@ -771,7 +772,9 @@ func runC14(c *Ctx) {
 		cs.Want = []string{"accept", "revoked"}
 		add(cs)
 	}()
-	// (4) two validator instances share the table but only same-key values
+	// (4) two validator instances share the table but only same-key values (alone: every Cleanup flushes the table)
+	wg.Wait()
+	closeDeferred()
 	wg.Add(1)
 	go func() {
 		defer wg.Done()
@@ -805,6 +808,7 @@ func runC14(c *Ctx) {
 		add(cs)
 	}()
 	wg.Wait()
+	closeDeferred()
 	sort.Slice(cases, func(i, j int) bool { return cases[i].Name < cases[j].Name })
 	for i, cs := range cases {
 		c.Count("case=" + strings.Fields(cs.Name)[0])
